@@ -39,10 +39,16 @@ def margin_indices(code, margin=MARGIN):
     return [(x, y) for y in range(-margin, my + margin + 1) for x in range(-margin, mx + margin + 1)]
 
 
+def c07_sizes(bound, tier):
+    """the even square grid [2..bound]^2 (holds rows >= 2 cols and cols >= 2 rows as soon as bound >= 4) plus strips beyond
+    it: narrow side 2 or 4, long side the even values bound+2 .. 14 (quick) / 20 (thorough), both orientations"""
+    return sizes(bound) + common.strips(range(2, 64, 2), bound, 14 if tier == 'quick' else 20)
+
+
 def c07_cases(ctx, bound):
     from qecsim.models.rotatedtoric import RotatedToricCode
-    for (R, C) in sizes(bound):
-        code = RotatedToricCode(R, C)
+
+    def one_size(code, R, C):
         tag = 'rotatedtoric {}x{}'.format(R, C)
         ctx.case('rotatedtoric nkd {} {}'.format(R, C), '{} {} {}'.format(*code.n_k_d), meta={'tag': tag})
         ctx.case('rotatedtoric stabs {} {}'.format(R, C), mat(code.stabilizers), meta={'tag': tag})
@@ -92,6 +98,11 @@ def c07_cases(ctx, bound):
                      bits(code.new_pauli().plaquette(i).to_bsf()), meta={'tag': tag})
         if sorted(flats) != list(range(n)):
             ctx.monitor_fail('lattice-index <-> qubit map is not a bijection onto range(n)', {'code': tag})
+
+    grid = c07_sizes(bound, ctx.tier)
+    common.grid_report(ctx, NAME, grid)
+    for (R, C) in grid:
+        common.per_size(ctx, NAME, (R, C), lambda: RotatedToricCode(R, C), one_size)
     # constructor domain
     U = common.ctor_universe()
     for (a, ta), (b, tb) in itertools.product(U, U):
